@@ -266,6 +266,36 @@ def check_markup(ctx: Ctx, mode, shape, width, wrap, align):
             except Exception as e:
                 V("markup-raises", f"set_text({markup2!r}) / render raised {type(e).__name__}: {e}", site=exc_site(e))
             t.set_text(markup)
+    # the canvas seen through a narrower window (what an Overlay or a trim does): every visible column keeps the attribute it has in the full
+    # canvas - the blank standing for a cut double-width character carries that character's attribute, not its neighbour's
+    if width >= 3:
+        full = []
+        ok_rows = True
+        for row in rows:
+            try:
+                cols_a = []
+                for ch, a, w in decode_row(row, codec, mode):
+                    cols_a += [a] * w
+                full.append(cols_a)
+            except UnicodeDecodeError:
+                ok_rows = False
+        if ok_rows and all(len(r) == width for r in full):
+            for tl, cw_ in ((0, width - 1), (1, width - 1), (1, width - 2), (0, width - 2)):
+                if cw_ < 1:
+                    continue
+                try:
+                    win = [list(r) for r in canv.content(tl, 0, cw_, len(rows))]
+                    for y, row in enumerate(win):
+                        got_w = []
+                        for ch, a, w in decode_row(row, codec, mode):
+                            got_w += [a] * w
+                        if got_w != full[y][tl : tl + cw_]:
+                            V("no-shift", f"row {y} seen through columns {tl}..{tl + cw_}: attributes {got_w}, in the full canvas these columns carry {full[y][tl : tl + cw_]}", "window")
+                            break
+                except UnicodeDecodeError:
+                    pass
+                except Exception as e:
+                    V("markup-raises", f"content({tl}, 0, {cw_}, {len(rows)}) raised {type(e).__name__}: {e}", site=exc_site(e))
     # exact judgement through the layout structure for untrimmed lines: padding cells carry None, text spaces their tag
     if mode != "utf8" or wrap in ("clip", "ellipsis"):
         return  # clipped lines are trimmed at render time: only the glyph rule above applies
